@@ -40,6 +40,7 @@ type Frame struct {
 	curLoops []*Loop        // unrolled loops currently being executed (innermost last)
 	siteOrd  map[ssa.Instruction]string
 	isaWrites []isaWrite
+	view     *regView
 	onCall   func(f *Frame, st *State, call ssa.CallInstruction, args []*Val) // hook (assert-at, C06 ...)
 }
 
@@ -337,6 +338,13 @@ func (f *Frame) execInstr(in ssa.Instruction, st *State) bool {
 		if !cond.IsConst() {
 			t.br = append(t.br, brTag{st.reach, cond})
 			e.br = append(e.br, brTag{st.reach, Not(cond)})
+			if c.prune {
+				if !c.feasible(t.reach) {
+					t.reach = TFalse
+				} else if !c.feasible(e.reach) {
+					e.reach = TFalse
+				}
+			}
 		}
 		f.setEdge(b, 0, t)
 		f.setEdge(b, 1, e)
@@ -459,7 +467,20 @@ func (f *Frame) nilCheck(st *State, in ssa.Instruction, r Term) {
 	if strings.HasPrefix(r.S, "(mkref ") && r.S != TNull.S {
 		return
 	}
+	if st.nonnil[r.S] {
+		return
+	}
+	if rs, ok := f.c.refStruct[r.S]; ok {
+		// field/element addresses of a checked reference are non-nil too
+		if root, _, ok2 := splitRef(rs); ok2 && strings.HasPrefix(root.S, "(rroot ") && st.nonnil[root.S[7:len(root.S)-1]] {
+			return
+		}
+	}
 	f.panicSite(st, in, "nil", Eq(r, TNull), "nil pointer dereference")
+	if st.nonnil == nil {
+		st.nonnil = map[string]bool{}
+	}
+	st.nonnil[r.S] = true
 }
 
 func (f *Frame) inputTerms() map[string]Term {
